@@ -13,6 +13,7 @@ LEVEL_TEXT = ("Round-trip monitoring of dump/load, dump->JSON text->load, pickle
               "SQL in the source dialect and rotating others, and carry the same public types, comments and meta; "
               "json.dumps of a dump must succeed.")
 LEVEL_TEXT += (' Harvested dialect-specific trees (raw and annotated) are included; the copy and the tree are also generated in place (copy=False) and compared.')
+LEVEL_TEXT += (' Types are compared as text plus every truthy scalar argument (nullable, nested, kind, values ...); trees holding several types of one DType that differ in such an argument are part of the workload.')
 LEVEL_NOTE = "compares public observables only (.type, .comments, .meta, .sql()); trees come from the real parsers/optimizer"
 TECHNIQUE = "runtime monitoring: serialisation round-trip oracle over parser/optimizer-produced trees"
 RULE = ("core-grammar statements (with injected comments) x all dialects x {raw, annotate_types, qualify+annotate_types} x "
@@ -24,12 +25,32 @@ SPEC = {
 }
 
 
+def type_key(n):
+    """the node's type as text plus every truthy scalar argument of every node of the type (nullable, nested, kind, values, udt
+    ...): flags the base dialect does not print are part of the type all the same (a falsy flag and an absent one are the same)"""
+    ty = getattr(n, "type", None)
+    if ty is None:
+        return None
+    from sqlglot import exp
+
+    flags = []
+    try:
+        for sub in ty.walk(bfs=False):
+            for k in sorted(sub.args):
+                v = sub.args[k]
+                if v and not isinstance(v, (exp.Expression, list)):
+                    flags.append(f"{type(sub).__name__}.{k}={v!r}")
+    except Exception:
+        flags.append("unwalkable")
+    return (canon.type_sql(n), tuple(flags))
+
+
 def observables(t):
     """parallel-walk description of public state: (class, type sql, comments, meta) per node in DFS order"""
     out = []
     for n in t.walk(bfs=False):
         m = n._meta if getattr(n, "_meta", None) else None
-        out.append((type(n).__name__, canon.type_sql(n), tuple(n.comments) if n.comments else (),
+        out.append((type(n).__name__, type_key(n), tuple(n.comments) if n.comments else (),
                     tuple(sorted((k, repr(v)) for k, v in m.items())) if m else ()))
     return out
 
@@ -177,6 +198,29 @@ def synthetic(ctx):
         typed.type = exp.DataType(this=member)
         nodes.append(typed)
     nodes.append(exp.DataType.build("my_schema.my_type", udt=True))
+    # one tree, several typed nodes that share the DType and differ in a flag or a parameter (both orders), set by hand and
+    # as the parsers produce them
+    for member in (exp.DType.INT, exp.DType.VARCHAR, exp.DType.ARRAY, exp.DType.TIMESTAMP):
+        variants = [exp.DataType(this=member), exp.DataType(this=member, nullable=True), exp.DataType(this=member, nested=True),
+                    exp.DataType(this=member, kind=exp.var("K")), exp.DataType(this=member, values=[exp.Literal.string("v")]),
+                    exp.DataType(this=member, expressions=[exp.DataTypeParam(this=exp.Literal.number(3))])]
+        for order in (variants, variants[::-1], variants[1:] + variants[:1]):
+            cols = []
+            for k, ty in enumerate(order):
+                c = exp.column(f"c{k}")
+                c.type = ty.copy()
+                cols.append(c)
+            nodes.append(exp.select(*cols).from_("t"))
+    import sqlglot
+    for d, q in (("clickhouse", "SELECT CAST(a AS Nullable(Int32)) AS x, CAST(b AS Int32) AS y, CAST(c AS Nullable(Int32)) AS z"),
+                 ("clickhouse", "SELECT CAST(b AS Int32) AS y, CAST(a AS Nullable(Int32)) AS x, CAST(c AS LowCardinality(String)), CAST(d AS String)"),
+                 ("bigquery", "SELECT CAST(a AS ARRAY<INT64>), CAST(b AS ARRAY<STRING>), CAST(c AS STRUCT<x INT64>), CAST(d AS STRUCT<y STRING>)"),
+                 ("postgres", "SELECT CAST(a AS INT[]), CAST(b AS INT), CAST(c AS VARCHAR(3)), CAST(d AS VARCHAR), CAST(e AS TIMESTAMP(3)), CAST(f AS TIMESTAMP)"),
+                 ("mysql", "SELECT CAST(a AS UNSIGNED), CAST(b AS SIGNED), CAST(c AS CHAR(3)), CAST(d AS CHAR)")):
+        try:
+            nodes.append(sqlglot.parse_one(q, read=d))
+        except Exception:
+            ctx.count("typed_statement_not_parsed")
     nodes.append(exp.Cast(this=exp.column("x"), to=exp.DataType.build("my_enum", udt=True)))
     for n in nodes:
         n.add_comments(["c1", "c 2"]) if len(nodes) % 2 else None
